@@ -394,7 +394,7 @@ package mod
 //@   trusted
 //@   modifies nothing
 //@ func (*Module).Connect
-//@   requires c != nil && c.sc != nil && len(args) >= 3 && imp(s3db.inMemoryS3 != nil, s3db.inMemoryS3.Client != nil)
+//@   requires declare != nil && c != nil && c.sc != nil && len(args) >= 3 && imp(s3db.inMemoryS3 != nil, s3db.inMemoryS3.Client != nil)
 //@   modifies contents(s3db.tables), puts, deletes, deleteFailures, lists, lastPutPrefix, lastPutName, lastPutOK, s3db.inMemoryS3, s3db.inMemoryBucket
 //@   at call:s3db.New assert statement-context: arg0 == c.sc.ctx && len(arg1) == len(args) - 2
 //@   at call:s3db.New assert table-name-and-options: forall j int :: imp(0 <= j && j < len(arg1), arg1[j] == args[j + 2])
@@ -405,7 +405,7 @@ package mod
 //@   trusted
 //@   modifies nothing
 //@ func (*Module).Create
-//@   requires c != nil && c.sc != nil && len(args) >= 3 && imp(s3db.inMemoryS3 != nil, s3db.inMemoryS3.Client != nil)
+//@   requires declare != nil && c != nil && c.sc != nil && len(args) >= 3 && imp(s3db.inMemoryS3 != nil, s3db.inMemoryS3.Client != nil)
 //@   modifies contents(s3db.tables), puts, deletes, deleteFailures, lists, lastPutPrefix, lastPutName, lastPutOK, s3db.inMemoryS3, s3db.inMemoryBucket
 //@   at call:mod.(*Module).Connect assert same-arguments: arg0 == c && arg1 == conn && arg2 == args
 //@   ensures connected: imp(err == nil, typeis(result0, *VirtualTable) && result0.(*VirtualTable) != nil && result0.(*VirtualTable).module == c && result0.(*VirtualTable).common != nil && s3db.tables[old(args[2])] == result0.(*VirtualTable).common && has(s3db.tables, old(args[2])))
@@ -437,7 +437,7 @@ package mod
 //@   modifies *res
 //@   ensures empty-means-not-given: imp(s == "", result == nil && *res == old(*res))
 //@ func (*ChangesModule).Connect
-//@   requires c != nil && len(args) >= 3
+//@   requires declare != nil && c != nil && len(args) >= 3
 //@   modifies nothing
 //@   ensures imp(err != nil, result0 == nil)
 //@   ensures connected: imp(err == nil, typeis(result0, *ChangesTable) && result0.(*ChangesTable) != nil && fresh(result0.(*ChangesTable)) && result0.(*ChangesTable).module == c && result0.(*ChangesTable).table != nil)
@@ -455,6 +455,6 @@ package mod
 //@   trusted
 //@   modifies nothing
 //@ func (*ChangesModule).Create
-//@   requires c != nil && len(args) >= 3
+//@   requires declare != nil && c != nil && len(args) >= 3
 //@   modifies nothing
 //@   at call:mod.(*ChangesModule).Connect assert same-arguments: arg0 == c && arg2 == args
